@@ -9,6 +9,7 @@ package props
 // (ops sp-*) is compared line by line.
 
 import (
+	"sort"
 	"encoding/hex"
 	"fmt"
 	"math"
@@ -353,6 +354,91 @@ func c07pV1(c *fw.Ctx, model func(op, out string)) {
 			}
 			if len(hs) <= 5 && len(seen) < len(hs) {
 				res.Count("sp-v1:index-not-hit")
+			}
+		}
+	}
+	// several storage proofs (for different contracts) in ONE transaction: every proof is checked — the transaction is
+	// accepted exactly when each proof would be accepted alone, whatever the order and whatever stands before it (an
+	// empty-file contract needs no Merkle proof in the current era; that must not end the checking of the others)
+	{
+		type item struct {
+			fcid  types.FileContractID
+			wid   types.BlockID
+			fs    uint64
+			root  c16H
+			leaf  [64]byte
+			proof []c16H
+		}
+		batch := func(era eraT, items []item) string {
+			n := &consensus.Network{}
+			n.HardforkTax.Height = era.tax
+			n.HardforkStorageProof.Height = era.spFork
+			n.HardforkV2.AllowHeight = 100000
+			n.HardforkV2.RequireHeight = 200000
+			s := consensus.State{Network: n, Index: types.ChainIndex{Height: 10}}
+			var ts consensus.V1TransactionSupplement
+			var txn types.Transaction
+			for _, it := range items {
+				fce := types.FileContractElement{ID: it.fcid, FileContract: types.FileContract{Filesize: it.fs, FileMerkleRoot: it.root, WindowStart: 5, WindowEnd: 50}}
+				ts.StorageProofs = append(ts.StorageProofs, consensus.V1StorageProofSupplement{FileContract: fce, WindowID: it.wid})
+				txn.StorageProofs = append(txn.StorageProofs, types.StorageProof{ParentID: it.fcid, Leaf: it.leaf, Proof: it.proof})
+			}
+			var err error
+			if p, msg := fw.Recover(func() { err = consensus.ValidateTransaction(consensus.NewMidState(s), txn, ts) }); p {
+				return "panic: " + msg
+			}
+			if err == nil {
+				return "1"
+			}
+			return "0"
+		}
+		mk := func(size int, id byte) (item, item) { // honest and corrupted proof of one non-empty contract
+			file := make([]byte, size)
+			c.Rng.Read(file)
+			leaves := c07pLeaves(file)
+			hs := make([]c16H, len(leaves))
+			for i := range leaves {
+				hs[i] = c16OLeaf(leaves[i][:])
+			}
+			it := item{fcid: types.FileContractID{id, 7}, wid: types.BlockID{id, 9}, fs: uint64(size), root: c16ORoot(hs)}
+			idx := int(consensus.State{Network: &consensus.Network{}}.StorageProofLeafIndex(it.fs, it.wid, it.fcid))
+			it.leaf, it.proof = leaves[idx], c07pPath(hs, idx)
+			bad := it
+			bad.leaf[0] ^= 1
+			return it, bad
+		}
+		for _, era := range eras {
+			for rep := 0; rep < c.Budget(6, 60); rep++ {
+				empty := item{fcid: types.FileContractID{0xe0, byte(rep)}, wid: types.BlockID{0xe1}}
+				empty2 := item{fcid: types.FileContractID{0xe2, byte(rep)}, wid: types.BlockID{0xe3}}
+				h1, b1 := mk(65+c.Rng.Intn(400), 1)
+				h2, b2 := mk(130+c.Rng.Intn(400), 2)
+				lists := map[string][]item{
+					"empty,honest": {empty, h1}, "honest,empty": {h1, empty}, "empty,corrupt": {empty, b1}, "corrupt,empty": {b1, empty},
+					"honest,corrupt": {h1, b2}, "corrupt,honest": {b1, h2}, "honest,honest": {h1, h2}, "empty,empty": {empty, empty2},
+					"empty,honest,corrupt": {empty, h1, b2}, "honest,empty,corrupt": {h1, empty, b2}, "empty,empty,corrupt": {empty, empty2, b1},
+				}
+				names := make([]string, 0, len(lists))
+				for k := range lists {
+					names = append(names, k)
+				}
+				sort.Strings(names)
+				for _, name := range names {
+					items := lists[name]
+					want := "1"
+					for _, it := range items {
+						if g := batch(era, []item{it}); g != "1" {
+							want = "0"
+						}
+					}
+					got := batch(era, items)
+					res.Eval(fmt.Sprintf("sp-batch %s %s %d", era.name, name, rep), true)
+					res.Count("sp-v1:batch:" + name + ":" + got)
+					if got != want {
+						res.Violate(fw.Violation{Key: "c07p-v1-batch-verdict:" + name, What: fmt.Sprintf("a transaction with storage proofs [%s] (era %s) has verdict %s, but taken one by one the proofs give %s", name, era.name, got, want),
+							Replay: map[string]any{"kind": "sp-v1-batch", "era": era.name, "list": name}, Expected: want, Observed: got})
+					}
+				}
 			}
 		}
 	}
